@@ -5,7 +5,7 @@
    the model's columns / to_scan sets / outcome / prediction table with what lark computes. *)
 From Coq Require Import List Arith Bool.
 From LV Require Import Cfg.Grammar Cfg.Analysis Cfg.Analysis_proofs Earley.Spec Earley.Alg Earley.Alg_proofs
-  Earley.Dyn Earley.Dyn_proofs.
+  Earley.Dyn Earley.Dyn_proofs Cfg.AnalysisDistribute Cfg.AnalysisDistribute_proofs.
 Import ListNotations.
 
 (* Parser.predictions[a] (= expand_rule, which always terminates within its fuel) is exactly the set of rules
@@ -171,3 +171,24 @@ Proof.
   - intros H. apply (C01_dynamic_complete _ _ _ _ _ _ _ F1) in H. vm_compute in H. discriminate.
   - apply (C01_dynamic_sound _ _ _ _ _ _ _ F2). vm_compute. reflexivity.
 Qed.
+
+(* ---------------------------------------------------------------------------------------------------------- *)
+(* Group distribution (load_grammar.SimplifyRule_Visitor, set-level model Cfg/AnalysisDistribute.flat): distributing
+   every group of alternatives over its sequence, flattening and removing duplicate alternatives yields pairwise
+   distinct flat alternatives that denote exactly the language of the rule body (sequence = concatenation, group =
+   union, symbol = what the grammar derives from it).  Duplicates created by the distribution are therefore
+   harmless and never a reason to reject the grammar. *)
+Theorem C01_distribute_language G (tok : Type) tmatch e w :
+  den G tok tmatch e w <-> exists a, In a (flat e) /\ derives G tok tmatch a w.
+Proof. exact (flat_den G tok tmatch e w). Qed.
+Print Assumptions C01_distribute_language.
+
+Theorem C01_distribute_nodup e : NoDup (flat e).
+Proof. exact (flat_nodup e). Qed.
+Print Assumptions C01_distribute_nodup.
+
+(* start: ("a" | "b") "c" | "a" "c"   compiles to the two alternatives  a c | b c *)
+Example C01_distribute_example :
+  flat (GAlt [GSeq [GAlt [GSeq [GSym (T 0)]; GSeq [GSym (T 1)]]; GSym (T 2)]; GSeq [GSym (T 0); GSym (T 2)]])
+  = [[T 0; T 2]; [T 1; T 2]].
+Proof. reflexivity. Qed.
